@@ -194,3 +194,10 @@ def run_case(desc):
     # primitive atoms lie inside their cell
     out.nontrivial = bool(cen != "P" or desc["pres"].get("hnf") is not None)
     return out
+
+
+def extra_engine(tier, seed, work):
+    """Hypothesis rule-based state machine over one analyser object (vlib/stateful_sym.py): getters in any order, set_system
+    with new or in-place-modified Atoms, reset(); model = a fresh analyser for the crystal currently held."""
+    from vlib import stateful_sym
+    return stateful_sym.campaign(ID, seed, 40 if tier == "quick" else 400)
